@@ -64,6 +64,9 @@ func main() {
 			case "strategy":
 				stratProgram = P
 				cfg = stratCfg()
+			case "strategy7":
+				stratProgram = P
+				cfg = stratCfg(7)
 			case "strategy2":
 				stratProgram = P
 				cfg = stratCfg(2)
